@@ -106,13 +106,26 @@ func driveCT(c *ctx) {
 	fixedScalar := scFrom(big.NewInt(0x77665544))
 
 	var sink *secp256k1.Point
-	for svIdx, sv := range secrets {
+	// scalar and field arithmetic on a secret VALUE (zero included: intermediate secrets can be anything)
+	scalarFieldOps := func(svIdx int, sv secretVal) {
 		d := sv.v
 		s := scFrom(d)
 		// ---- scalar arithmetic on secret scalars
 		emit("scalar", "sc.Invert", "-", sv.cls, false, func() { secp256k1.NewScalar().Invert(s) })
 		emit("scalar", "sc.Multiply", "-", sv.cls, false, func() { secp256k1.NewScalar().Multiply(s, fixedScalar) })
 		emit("scalar", "sc.Add", "-", sv.cls, false, func() { secp256k1.NewScalar().Add(s, fixedScalar) })
+		emit("scalar", "sc.Sum+Product", "-", sv.cls, false, func() { // the variadic folds, the secret in every position
+			secp256k1.NewScalar().Sum(s, fixedScalar, s)
+			secp256k1.NewScalar().Product(s, fixedScalar, fixedScalar)
+			secp256k1.NewScalar().Product(fixedScalar, s, fixedScalar)
+			secp256k1.NewScalar().Product(fixedScalar, fixedScalar, s)
+		})
+		emit("scalar", "sc.Sub+Sq+CSel", "-", sv.cls, false, func() {
+			t := secp256k1.NewScalar().Subtract(fixedScalar, s)
+			t.Square(t)
+			t.ConditionalSelect(t, s, s.IsZero())
+			_ = secp256k1.NewScalarFrom(t).Set(s)
+		})
 		emit("scalar", "sc.Negate+IsGtHalf+CondNeg", "-", sv.cls, false, func() {
 			t := secp256k1.NewScalar().Negate(s)
 			t.ConditionalNegate(t, t.IsGreaterThanHalfN())
@@ -145,6 +158,12 @@ func driveCT(c *ctx) {
 			_ = t.IsZero() | t.Equal(fe)
 			_ = t.Bytes()
 		})
+	}
+	scalarFieldOps(len(secrets), secretVal{big.NewInt(0), "zero"})
+	for svIdx, sv := range secrets {
+		d := sv.v
+		s := scFrom(d)
+		scalarFieldOps(svIdx, sv)
 		// ---- multiplications with a secret scalar
 		for pi, P := range pubPts {
 			pub := "P" + string(rune('0'+pi))
